@@ -874,10 +874,17 @@ class TermBuilder:
         ok = _INLINE_OK.get(key)
         if ok is None:
             nb = [b for b in cf.blocks if not b.cleanup]
-            ok = (len(nb) <= 3 and not cf.loop_heads() and len(cf.exits()) == 1
+            def no_param_stores():
+                for b in nb:
+                    for st in b.stmts:
+                        if st.k == "assign" and st.place.proj and st.place.proj[0]["k"] == "deref" and 1 <= st.place.local <= cf.arg_count:
+                            return False
+                return True
+            safe = INLINE_SAFE_CALLEES | FLOAT_METHODS | INT_METHODS | RNG_DRAWS
+            ok = (len(nb) <= 14 and not cf.loop_heads() and len(cf.exits()) == 1
                   and all(b.term.k in ("return", "goto", "call", "assert") for b in nb)
-                  and not any(cf.local_ty(i).startswith("&mut") for i in range(1, cf.arg_count + 1))
-                  and all((not b.term.k == "call") or (b.term.callee_name() in INLINE_SAFE_CALLEES) for b in nb))
+                  and no_param_stores()
+                  and all((not b.term.k == "call") or (b.term.callee_name() in safe) for b in nb))
             _INLINE_OK[key] = ok
         if not ok:
             return None
